@@ -241,6 +241,10 @@ func (n *RecNode) Process(ctx context.Context, e *eventlogger.Event) (*eventlogg
 			ne.Inner = context.Canceled
 		}
 		err = ne
+		if rt.Mix(n.behSeed, 91)%3 == 0 {
+			// a failing node that hands back the event together with its error has failed all the same
+			out = e
+		}
 	}
 	n.log.done(ent, out, err)
 	return out, err
